@@ -72,8 +72,11 @@ def jitter(rng, wp, xs, keep_ends=False):
             out.append(t)
             continue
         if scale == 'ulp':
-            # the adjacent double (0.3 vs 0.1+0.2)
-            v = math.nextafter(t, rng.choice([-math.inf, math.inf, math.inf])) if rng.random() < 0.7 else t
+            # the adjacent double (0.3 vs 0.1+0.2); not around 0.0, where the neighbour is a denormal
+            # (5e-324): time differences below ~1e-150 are outside the range in which ISI**2 is
+            # representable (known finding `underflow-scale`, DESIGN.md section 9)
+            v = math.nextafter(t, rng.choice([-math.inf, math.inf, math.inf])) \
+                if (rng.random() < 0.7 and abs(t) > 1e-100) else t
         else:
             d = rng.choice([-1.0, 1.0, 0.0, 1.0]) * scale * max(1.0, abs(t)) * rng.random()
             v = t + d
